@@ -293,11 +293,17 @@ def run_cell(ctx, p):
     except Exception as e:
         ctx.harness_errors.append('operand construction %s/%s failed: %r' % (L, R, e))
         return
+    if p.get('sameobj'):
+        b = a       # one and the same Python object on both sides (x op x, an alias)
     la = 'M' if (L in CLASSES and hasattr(a, 'data') and isinstance(a.data, list) and len(a.data) > 1) else '1'
     lb = 'M' if (R in CLASSES and hasattr(b, 'data') and isinstance(b.data, list) and len(b.data) > 1) else '1'
     sig = dict(left=L, right=R, op=op, lens=la + 'x' + lb)
+    if p.get('sameobj'):
+        sig['sameobj'] = True
+    if p.get('unequal'):
+        sig['lens'] = '2x3'
     what0 = '%s %s %s' % (L, op, R)
-    cellkey = (L, R, op, la + lb)
+    cellkey = (L, R, op, la + lb, bool(p.get('sameobj')), bool(p.get('unequal')))
     if L == R and L in SV and op in ('add', 'sub', 'iadd', 'isub') and la != lb:
         exp = ('raise',)            # spatial vectors of unequal length must be rejected (C20)
     if (L in ('SpatialInertia',) or (L == 'SE3' and (R in SV or R == 'Plucker'))) and (la == 'M' or lb == 'M') and exp[0] == 'class':
@@ -457,6 +463,23 @@ def run(ctx):
                         continue
                     e = ('unjudged', 'non-integer power') if bop == 'pow' and not isinstance(s_, int) else exp
                     drive(RUNNERS, ctx, 'cell', dict(L=c, R=type(s_).__name__, op=aop, a=operand(rng, c, ml), b=s_, exp=list(e)))
+    # one object on both sides; and same-class sequences of different lengths (2 and 3 values): no element-wise pairing exists, so
+    # the operation is refused -- never None, never a single identity value
+    for c in CLASSES:
+        for op in ALLOPS + list(AUG):
+            exp = expected(c, c, AUG.get(op, op))
+            for ml in ((False, True) if c in MULTI_OK else (False,)):
+                i += 1
+                if not ctx.mine(i):
+                    continue
+                if not (op in AUG and exp[0] != 'raise'):       # (x op= x on a documented pair rebinds / edits x itself: the binary form covers it)
+                    drive(RUNNERS, ctx, 'cell', dict(L=c, R=c, op=op, a=operand(rng, c, ml), b=operand(rng, c, ml), exp=list(exp), sameobj=True))
+            if c in MULTI_OK and c in POSES + ['Quaternion', 'UnitQuaternion', 'Twist2', 'Twist3'] and exp[0] != 'unjudged':
+                i += 1
+                if ctx.mine(i):
+                    a3 = operand(rng, c, True) + operand(rng, c, False)
+                    for a_, b_ in ((operand(rng, c, True), a3), (a3, operand(rng, c, True))):
+                        drive(RUNNERS, ctx, 'cell', dict(L=c, R=c, op=op, a=a_, b=b_, exp=['raise'], unequal=True))
     # operands holding no value (Empty()): never None
     for c in POSES + ['Quaternion', 'UnitQuaternion', 'Twist2', 'Twist3']:
         d_ = 2 if c in ('SO2', 'SE2', 'Twist2') else 3
